@@ -3,6 +3,7 @@ package main
 import (
 	"fmt"
 	"go/token"
+	"go/types"
 	"regexp/syntax"
 	"strings"
 
@@ -29,6 +30,9 @@ type tplPart struct {
 // parameters stand for what the builder passes in.
 var holeCtx map[ssa.Value]string
 
+// envMapCtx: parameters (of the helper being analysed) that receive Environments.All().
+var envMapCtx map[ssa.Value]bool
+
 // envHole classifies a non-constant part of the script concatenation.
 func envHole(v ssa.Value) string {
 	if h, ok := holeCtx[v]; ok {
@@ -38,7 +42,11 @@ func envHole(v ssa.Value) string {
 	if ex, ok := v.(*ssa.Extract); ok {
 		if nx, ok := ex.Tuple.(*ssa.Next); ok {
 			if rg, ok := nx.Iter.(*ssa.Range); ok {
-				if call, ok := rg.X.(*ssa.Call); ok && call.Call.Method != nil && call.Call.Method.Name() == "All" {
+				call, isAll := rg.X.(*ssa.Call)
+				if isAll {
+					isAll = call.Call.Method != nil && call.Call.Method.Name() == "All"
+				}
+				if isAll || envMapCtx[rg.X] {
 					switch ex.Index {
 					case 1:
 						return "KEY"
@@ -55,7 +63,102 @@ func envHole(v ssa.Value) string {
 			return "TAG"
 		}
 	}
+	// a field of a small script-builder object that only ever holds a random tag
+	if ld, ok := v.(*ssa.UnOp); ok {
+		if fa, ok := ld.X.(*ssa.FieldAddr); ok && tagFieldProblem(fa, nil) == "" {
+			return "TAG"
+		}
+	}
 	return "OTHER:" + originsString(os)
+}
+
+// tagFieldProblem: "" when every store into the struct field addressed by fa (anywhere in its
+// package) stores "const + RandString(n >= 8)" drawn inside the storing function, and - if builder
+// is given - that function (the object's constructor) is called from the builder or one of its
+// private helpers, i.e. a new object with a new tag exists per generated script.
+func tagFieldProblem(fa *ssa.FieldAddr, builder *ssa.Function) string {
+	fn := fieldName(fa)
+	par := fa.Parent()
+	if par == nil || par.Pkg == nil {
+		return "cannot locate the field"
+	}
+	stores := 0
+	var ctors []*ssa.Function
+	problem := ""
+	for _, m := range par.Pkg.Members {
+		var fns []*ssa.Function
+		if g, ok := m.(*ssa.Function); ok {
+			fns = withClosures(g)
+		}
+		if t, ok := m.(*ssa.Type); ok {
+			for _, tt := range []types.Type{t.Type(), types.NewPointer(t.Type())} {
+				ms := par.Prog.MethodSets.MethodSet(tt)
+				for i := 0; i < ms.Len(); i++ {
+					if g := par.Prog.MethodValue(ms.At(i)); g != nil && g.Synthetic == "" {
+						fns = append(fns, withClosures(g)...)
+					}
+				}
+			}
+		}
+		for _, g := range fns {
+			if g.Blocks == nil {
+				continue
+			}
+			eachInstr(g, func(_ *ssa.BasicBlock, _ int, in ssa.Instruction) {
+				st, ok := in.(*ssa.Store)
+				if !ok {
+					return
+				}
+				fa2, ok := st.Addr.(*ssa.FieldAddr)
+				if !ok || fieldName(fa2) != fn {
+					return
+				}
+				stores++
+				okDraw := false
+				for _, o := range Origins(st.Val, FlowOpts{}) {
+					switch {
+					case o.Kind == "const":
+					case o.Kind == "call" && strings.HasPrefix(o.Name, modPath+"/varutil.RandString#"):
+						call := o.Val.(*ssa.Call)
+						if n, isC := constInt(call.Call.Args[0]); isC && n >= 8 && call.Parent() == g {
+							okDraw = true
+						} else {
+							problem = "the random part of the terminator is shorter than 8 characters or not drawn where it is stored"
+						}
+					default:
+						problem = "the tag field is also set from " + o.String()
+					}
+				}
+				if !okDraw && problem == "" {
+					problem = "the tag field is set without a random draw"
+				}
+				ctors = append(ctors, g)
+			})
+		}
+	}
+	if stores == 0 {
+		return "the field is never set"
+	}
+	if problem != "" {
+		return problem
+	}
+	if builder != nil {
+		group := append([]*ssa.Function{builder}, reachableSamePkg(builder, 2)...)
+		for _, k := range ctors {
+			called := false
+			for _, g := range group {
+				for _, ci := range Calls(g) {
+					if ci.Static == k {
+						called = true
+					}
+				}
+			}
+			if !called && k != builder {
+				return "the object that carries the terminator is not created by the builder on every call"
+			}
+		}
+	}
+	return ""
 }
 
 func rulesC18(c *Ctx) {
@@ -192,36 +295,52 @@ func ruleHeredoc(c *Ctx, f *ssa.Function) {
 	for _, parts := range scriptTemplates(f) {
 		tmpls = append(tmpls, tmpl{parts, f, f.Pos()})
 	}
-	// pieces built by a private helper that is handed the key / value / tag
-	for _, ci := range Calls(f) {
-		g := ci.Static
-		if g == nil || !inModule(g) || g.Blocks == nil || ci.Kind != "call" {
-			continue
-		}
-		ctx := map[ssa.Value]string{}
-		hasValue := false
-		holeCtx = nil
-		for ai, a := range ci.Common.Args {
-			if ai >= len(g.Params) {
-				break
+	// pieces built by a private helper that is handed the key / value / tag - or the whole
+	// environment map, which it ranges over itself (one more level down)
+	var collect func(from *ssa.Function, curHole map[ssa.Value]string, curMaps map[ssa.Value]bool, depth int)
+	collect = func(from *ssa.Function, curHole map[ssa.Value]string, curMaps map[ssa.Value]bool, depth int) {
+		for _, ci := range Calls(from) {
+			g := ci.Static
+			if g == nil || !inModule(g) || g.Blocks == nil || ci.Kind != "call" || g == from {
+				continue
 			}
-			h := envHole(a)
-			if h == "VALUE" {
-				hasValue = true
+			ctx := map[ssa.Value]string{}
+			maps := map[ssa.Value]bool{}
+			hasValue := false
+			holeCtx, envMapCtx = curHole, curMaps
+			for ai, a := range ci.Common.Args {
+				if ai >= len(g.Params) {
+					break
+				}
+				h := envHole(a)
+				if h == "VALUE" {
+					hasValue = true
+				}
+				if h == "VALUE" || h == "KEY" || h == "TAG" {
+					ctx[g.Params[ai]] = h
+				}
+				if call, ok := resolve(a).(*ssa.Call); ok && call.Call.Method != nil && call.Call.Method.Name() == "All" {
+					maps[g.Params[ai]] = true
+				}
+				if curMaps[a] {
+					maps[g.Params[ai]] = true
+				}
 			}
-			if h == "VALUE" || h == "KEY" || h == "TAG" {
-				ctx[g.Params[ai]] = h
+			holeCtx, envMapCtx = nil, nil
+			if !hasValue && len(maps) == 0 {
+				continue
+			}
+			holeCtx, envMapCtx = ctx, maps
+			for _, parts := range scriptTemplates(g) {
+				tmpls = append(tmpls, tmpl{parts, g, ci.Pos()})
+			}
+			holeCtx, envMapCtx = nil, nil
+			if depth < 2 {
+				collect(g, ctx, maps, depth+1)
 			}
 		}
-		if !hasValue {
-			continue
-		}
-		holeCtx = ctx
-		for _, parts := range scriptTemplates(g) {
-			tmpls = append(tmpls, tmpl{parts, g, ci.Pos()})
-		}
-		holeCtx = nil
 	}
+	collect(f, nil, nil, 0)
 	valueSeen := 0
 	for _, t := range tmpls {
 		parts := t.parts
@@ -268,8 +387,18 @@ func ruleHeredoc(c *Ctx, f *ssa.Function) {
 					}
 				}
 			}
-			if w := freshRandomTag(f, tv); w != "" {
-				okT, whyT = false, w
+			if ld, isLd := tv.(*ssa.UnOp); isLd {
+				if fa, isFA := ld.X.(*ssa.FieldAddr); isFA {
+					if w := tagFieldProblem(fa, f); w != "" {
+						okT, whyT = false, w
+					}
+					tv = nil
+				}
+			}
+			if tv != nil {
+				if w := freshRandomTag(f, tv); w != "" {
+					okT, whyT = false, w
+				}
 			}
 		}
 		c.Check(okT, "R2", "heredoc terminator in "+name, t.pos, "RandString(const >= 8) evaluated in the builder on every call; same value opens and closes", whyT+" — a value containing the terminator line ends the document early and the rest is executed")
